@@ -425,6 +425,10 @@ work : {
     }
     free(line);
     fclose(f);
+  } else if (o.strategy == "pb" && !o.script.empty()) {
+    // replay of one explored execution: the script is the list of (decision, thread) pairs
+    ExecResult r = run_one(*e, p, o, (unsigned long)o.seed_lo, "pb", parse_ints(o.script));
+    account(s, r, out);
   } else if (o.strategy == "pb") {
     std::deque<PbItem> q[8];
     q[0].push_back({{}, 0});
